@@ -131,6 +131,34 @@ func (s *c03Sys) backupsComplete() bool {
 			return false
 		}
 	}
+	// The same for a key whose newest version has run out but is still stored: that expired version
+	// is what keeps an older, superseded version (left on another member by an unfinished hand-over)
+	// from being read. While fewer than ReplicaCount distinct members hold it, one departure can
+	// remove it and let the older version resurface - the premise "has its backups" does not hold.
+	for _, k := range s.Keys {
+		if s.Ref[k] != "" || !s.Expired[k] {
+			continue
+		}
+		var newest int64
+		cps := s.Cl.Copies("d", k)
+		for _, c := range cps {
+			if c.Timestamp > newest {
+				newest = c.Timestamp
+			}
+		}
+		holders := map[string]bool{}
+		stale := false
+		for _, c := range cps {
+			if c.Timestamp == newest {
+				holders[c.Member] = true
+			} else {
+				stale = true
+			}
+		}
+		if stale && len(holders) < s.P.Opts.Replicas {
+			return false
+		}
+	}
 	return true
 }
 
